@@ -601,16 +601,21 @@ func isSuggest(targetT base.T, sig base.Sig) bool {
 		return false
 	}
 
-	// an instance is an instance, also when its value is what a class method
-	// (`new`) returned and still carries that method's static flag
-	isStaticContext := targetT.IsStatic && targetT.GetType() != base.OBJECT
+	// a value with a class of its own answers with that class. Where it was
+	// produced (DefinedClass, the static flag of the method that returned it)
+	// says what `self` can call there, which matters only for a target without
+	// a class: a name being typed inside a method body
+	switch targetT.GetType() {
+	case base.INT, base.FLOAT, base.ARRAY, base.HASH, base.STRING, base.OBJECT,
+		base.SYMBOL, base.NIL, base.BOOL:
+	default:
+		if sig.Class == targetT.DefinedClass && sig.IsStatic == targetT.IsStatic {
+			return true
+		}
 
-	if sig.Class == targetT.DefinedClass && sig.IsStatic == isStaticContext {
-		return true
-	}
-
-	if isParentClass(sig, targetT.DefinedFrame, targetT.DefinedClass, isStaticContext, false, false) {
-		return true
+		if isParentClass(sig, targetT.DefinedFrame, targetT.DefinedClass, targetT.IsStatic, false, false) {
+			return true
+		}
 	}
 
 	if sig.Class == objectClass {
